@@ -7,18 +7,21 @@ Trace == ndJsonDeserialize(IOEnv.TRACE_FILE)
 VARIABLE v_l
 ASSUME TLCSet(1, 0)
 
-GetWhy(ev) ==
+ApiWhy(ev) ==
   LET d == Desc(ev.cid)
       ref == GetAttrRef(d, ev.key, ev.args) IN
   IF ev.panicked THEN "panic"
   ELSE IF ref.r = "err" THEN (IF ev.ok THEN "missing-or-unusable-accepted" ELSE "")
   ELSE IF ref.r = "elem" THEN (IF ~ev.ok THEN "existing-element-rejected" ELSE IF ev.val # ref.v THEN "wrong-element" ELSE "")
   ELSE IF ev.ok /\ d.kind \in {"seq", "map"} /\ ev.val \notin ElemValues(d) THEN "not-an-element"
-  (* the same lookup written c[k] in a template yields GetAttr's element, and null where GetAttr reports an error *)
-  ELSE IF ev.tpl = "panic" THEN "template-subscript-panics"
+  ELSE ""
+(* the same lookup written c[k] in a template yields GetAttr's element, and null where GetAttr reports an error *)
+TplWhy(ev) ==
+  IF ev.tpl = "panic" THEN "template-subscript-panics"
   ELSE IF ev.tpl = "ran" /\ ev.ok /\ ev.tplval # ev.val THEN "template-subscript-differs-from-GetAttr"
   ELSE IF ev.tpl = "ran" /\ ~ev.ok /\ ev.tplval # Null THEN "template-subscript-invents-an-element"
   ELSE ""
+GetWhy(ev) == LET a == ApiWhy(ev) IN IF a # "" THEN a ELSE TplWhy(ev)
 Why(ev) == IF ev.k = "getattr" THEN GetWhy(ev)
            ELSE IF ev.panicked THEN "panic" ELSE IterWhy(Desc(ev.cid), ev)
 TInit == v_l = 1
